@@ -1,4 +1,5 @@
 import QipVerif.Lemmas.ConcatTop
+import QipVerif.Lemmas.ConcatCont
 /-!
 # C12 — compiled control pulses are exactly the scheduled instruction waveforms
 
@@ -82,6 +83,33 @@ theorem discrete_channel_is_schedule (byTol : Bool) (τ : Rat) (hτ : 0 < τ) (p
     simp only [List.nil_append, List.cons_append]
     rw [stepAt_pad 0 _ _ _ t (pureLoop_struct _ 0 hc).2.1.symm (grid_ok τ hτ pm final ms hms s w rest hc)]
     exact pureLoop_discrete _ 0 hc hd t
+
+/-- **Samples.** For a channel of continuous pulses (`n` coefficients for `n` time points; the code drops each
+pulse's first sample, which by the documented convention is 0) there is one coefficient per grid point, and
+every (grid point, coefficient) pair is *explained by the schedule* (`Explained`): a grid point inside the
+window `(s, s + duration]` of an instruction is one of that instruction's sample points and carries its
+sample; every other grid point (time 0, idle points, padding) carries 0.  Conversely every kept sample of every
+instruction appears in the compiled arrays at its scheduled time. -/
+theorem continuous_channel_is_schedule (byTol : Bool) (τ : Rat) (hτ : 0 < τ) (pm : Mode) (final ms : Rat)
+    (hms : 0 < ms) (instrs : List (Rat × Wave)) (hne : instrs ≠ [])
+    (hc : Chain 0 instrs) (hs : Sep byTol τ true 0 instrs) (hfin : endOf 0 instrs ≤ final)
+    (hcnt : ∀ sw ∈ instrs, sw.2.mode = .continuous) :
+    ∃ g c, compiledChannel byTol τ pm final ms instrs = .ok (g, c) ∧ c.length = g.length ∧
+      (∀ xv ∈ g.zip c, Explained instrs xv) ∧
+      (∀ sw ∈ instrs, ∀ yc ∈ sw.2.kept, (sw.1 + yc.1, yc.2) ∈ g.zip c) := by
+  match instrs, hne with
+  | (s, w) :: rest, _ =>
+    exact ⟨_, _, compiledChannel_eq byTol τ hτ pm final ms hms _ (valid_of_chain_sep hc hs) hfin,
+      compiled_continuous τ hτ pm final ms hms s w rest hc hcnt⟩
+
+-- non-vacuity (continuous): two sampled pulses, gap 2 <= 3 steps (arange branch) — compiled arrays
+example :
+    (compiledChannel true (1/1000000) .continuous 7 1
+        [(0, .arr [0, 1, 2, 3] [0, 1, 1, 0]), (5, .arr [0, 1, 2] [0, 3, 0])]).toOption
+      = some ([0, 1, 2, 3, 4, 6, 7], [0, 1, 1, 0, 0, 3, 0]) ∧
+    (Wave.arr [0, 1, 2] [0, 3, 0]).kept = [(1, 3), (2, 0)] ∧
+    (Wave.arr [0, 1, 2] [0, 3, 0]).sample (6 - 5) = some 3 := by
+  decide +kernel
 
 -- non-vacuity: two instructions with an idle gap, steps 2^-10 and 2^9; the hypotheses hold
 example : Chain 0 [(0, .scalar (1/1024) (1/2)), (1, .arr [0, 512, 1024] [3/4, -1/4])] ∧
